@@ -68,10 +68,27 @@ type tokS struct {
 type beh struct {
 	Reads int  `json:"reads"`
 	Fail  bool `json:"fail,omitempty"`
+	// re-entrancy: after NestAt of its Reads calls to Token() the handler hands
+	// stanza Nested[Nest-1] of the case to the SAME mux (as a handler that unwraps a
+	// forwarded stanza does), waits for that dispatch to return, then goes on reading
+	Nest   int `json:"nest,omitempty"`
+	NestAt int `json:"nestat,omitempty"`
+}
+
+// nstanza is a further stanza of a case: dispatched on the same mux by a handler
+// (re-entrant cases) or by a second goroutine (interleaved cases). It has its own
+// reader and its own handler script.
+type nstanza struct {
+	Name   [2]string `json:"name"`
+	Attrs  []attrS   `json:"attrs,omitempty"`
+	Toks   []tokS    `json:"toks,omitempty"`
+	UErr   bool      `json:"uerr,omitempty"`
+	UWith  bool      `json:"uwith,omitempty"`
+	Script []beh     `json:"script,omitempty"`
 }
 
 type dcase struct {
-	Kind   string    `json:"kind"` // dispatch | lookup | register | session
+	Kind   string    `json:"kind"` // dispatch | lookup | register | session | reentrant | interleave
 	Ops    []pat     `json:"ops"`
 	NS     string    `json:"ns"`
 	Name   [2]string `json:"name"`
@@ -80,6 +97,11 @@ type dcase struct {
 	UErr   bool      `json:"uerr,omitempty"`  // the reader ends with an error other than io.EOF
 	UWith  bool      `json:"uwith,omitempty"` // the reader returns its terminal error together with its last token
 	Script []beh     `json:"script,omitempty"`
+	// re-entrant and interleaved cases: the other stanzas; interleaved cases: the
+	// schedule (which goroutine - 0: this stanza, 1: Nested[0] - runs up to its next
+	// handler operation)
+	Nested []nstanza `json:"nested,omitempty"`
+	Sched  []int     `json:"sched,omitempty"`
 	// lookup cases
 	Tbl     int         `json:"tbl,omitempty"`
 	Type    string      `json:"type,omitempty"`
@@ -96,31 +118,129 @@ type event struct {
 	Payload bool     // iq: a payload start was passed
 	Got     []xml.Token
 	ID      string
+	Path    []int // the nested stanza the handler ran for (indices into Nested, outermost first); empty: the case's own stanza
+	Sub     *sctx // the dispatch this handler started on the same mux, if any
+}
+
+// sctx is one dispatch in flight: one call of HandleXMPP with its own reader,
+// handler script and record of the handlers invoked for it.
+type sctx struct {
+	idx    int // -1: the case's own stanza; otherwise index into Nested
+	path   []int
+	script []beh
+	events []*event
+	rw     *sliceRW
+	ret    string
+	panic  string
+}
+
+func (c *sctx) evs() []event {
+	var out []event
+	for _, e := range c.events {
+		out = append(out, *e)
+	}
+	return out
 }
 
 type run struct {
-	script []beh
-	events []event
+	c       *dcase
+	m       *mux.ServeMux
+	top     *sctx
+	cur     *sctx       // the dispatch the running handler belongs to
+	all     []*event    // every invocation, in order of invocation
+	written []xml.Token // everything any of the dispatches wrote, in order
+	ctxs    []*sctx     // the nested dispatches, in order of creation
+	sch     *scheduler  // interleaved cases only
+	noNest  bool
+}
+
+func newRun(c *dcase) *run {
+	top := &sctx{idx: -1, script: append([]beh(nil), c.Script...)}
+	return &run{c: c, top: top, cur: top}
 }
 
 func (x *run) invoke(kind string, h int, typ, id string, name xml.Name, payload bool, t xml.TokenReader) error {
+	ctx := x.cur
 	b := beh{}
-	if len(x.script) > 0 {
-		b, x.script = x.script[0], x.script[1:]
+	if len(ctx.script) > 0 {
+		b, ctx.script = ctx.script[0], ctx.script[1:]
 	}
-	ev := event{Kind: kind, H: h, Type: typ, Name: name, Payload: payload, ID: id}
-	for i := 0; i < b.Reads; i++ {
-		tok, _ := t.Token()
-		if tok == nil {
-			break
+	ev := &event{Kind: kind, H: h, Type: typ, Name: name, Payload: payload, ID: id, Path: ctx.path}
+	ctx.events = append(ctx.events, ev)
+	x.all = append(x.all, ev)
+	read := func(n int) {
+		for i := 0; i < n; i++ {
+			x.yield()
+			tok, _ := t.Token()
+			if tok == nil {
+				break
+			}
+			ev.Got = append(ev.Got, xml.CopyToken(tok))
 		}
-		ev.Got = append(ev.Got, xml.CopyToken(tok))
 	}
-	x.events = append(x.events, ev)
+	// a request for a stanza that is not there (or not a later one) is ignored
+	nests := b.Nest > 0 && !x.noNest && x.c != nil && b.Nest-1 > ctx.idx && b.Nest-1 < len(x.c.Nested)
+	first := b.Reads
+	if nests && b.NestAt < first {
+		first = b.NestAt
+	}
+	x.yield()
+	read(first)
+	if nests {
+		ev.Sub = x.nested(ctx, b.Nest-1)
+	}
+	read(b.Reads - first)
+	x.yield()
 	if b.Fail {
 		return errHandler
 	}
 	return nil
+}
+
+// nested dispatches stanza Nested[j] on the same mux, from inside a handler of
+// ctx. Only later stanzas of the list may be dispatched (no cycles). What the
+// nested dispatch returns - or a panic in it - is ignored by the handler.
+func (x *run) nested(ctx *sctx, j int) *sctx {
+	child := x.newCtx(j, append(append([]int(nil), ctx.path...), j))
+	x.cur = child
+	x.dispatchCtx(child)
+	x.cur = ctx
+	return child
+}
+
+func (x *run) newCtx(j int, path []int) *sctx {
+	n := x.c.Nested[j]
+	child := &sctx{idx: j, path: path, script: append([]beh(nil), n.Script...)}
+	child.rw = &sliceRW{uerr: n.UErr, with: n.UWith, sink: &x.written}
+	for _, t := range n.Toks {
+		child.rw.toks = append(child.rw.toks, realTok(t))
+	}
+	x.ctxs = append(x.ctxs, child)
+	return child
+}
+
+func (x *run) startOfCtx(ctx *sctx) xml.StartElement {
+	if ctx.idx < 0 {
+		return startOf(x.c)
+	}
+	n := x.c.Nested[ctx.idx]
+	return startOf(&dcase{Name: n.Name, Attrs: n.Attrs})
+}
+
+func (x *run) dispatchCtx(ctx *sctx) {
+	start := x.startOfCtx(ctx)
+	var err error
+	ctx.panic = hx.Catch(func() { err = x.m.HandleXMPP(ctx.rw, &start) })
+	switch {
+	case ctx.panic != "":
+		ctx.ret = "panic"
+	case err == nil:
+		ctx.ret = "ok"
+	case err == io.EOF:
+		ctx.ret = "eof"
+	default:
+		ctx.ret = "err"
+	}
 }
 
 var errHandler = errors.New("scripted handler failure")
@@ -206,6 +326,7 @@ type sliceRW struct {
 	uerr    bool // the terminal error is errUnderlying instead of io.EOF
 	with    bool // the last token is returned together with the terminal error
 	written []xml.Token
+	sink    *[]xml.Token // shared record of everything written on the case's mux (optional)
 }
 
 func (r *sliceRW) term() error {
@@ -228,6 +349,9 @@ func (r *sliceRW) Token() (xml.Token, error) {
 }
 func (r *sliceRW) EncodeToken(t xml.Token) error {
 	r.written = append(r.written, xml.CopyToken(t))
+	if r.sink != nil {
+		*r.sink = append(*r.sink, xml.CopyToken(t))
+	}
 	return nil
 }
 func (r *sliceRW) Encode(v interface{}) error { return errors.New("Encode not expected") }
@@ -263,32 +387,32 @@ type obs struct {
 	Panic   string
 }
 
+// prepare builds the mux and the reader of the case's own stanza.
+func prepare(c *dcase) (x *run, refused string) {
+	x = newRun(c)
+	x.m, refused = newMux(c.NS, c.Ops, x)
+	if refused != "" {
+		return x, refused
+	}
+	x.top.rw = &sliceRW{uerr: c.UErr, with: c.UWith, sink: &x.written}
+	for _, t := range c.Toks {
+		x.top.rw.toks = append(x.top.rw.toks, realTok(t))
+	}
+	return x, ""
+}
+
+func obsOf(ctx *sctx) obs {
+	return obs{Events: ctx.evs(), Written: ctx.rw.written, Ret: ctx.ret, Panic: ctx.panic}
+}
+
 func runDirect(c *dcase) obs {
-	x := &run{script: append([]beh(nil), c.Script...)}
-	m, refused := newMux(c.NS, c.Ops, x)
+	x, refused := prepare(c)
 	if refused != "" {
 		return obs{Refused: refused}
 	}
-	rw := &sliceRW{uerr: c.UErr, with: c.UWith}
-	for _, t := range c.Toks {
-		rw.toks = append(rw.toks, realTok(t))
-	}
-	start := startOf(c)
-	var err error
-	o := obs{}
-	o.Panic = hx.Catch(func() { err = m.HandleXMPP(rw, &start) })
-	o.Events, o.Written = x.events, rw.written
-	switch {
-	case o.Panic != "":
-		o.Ret = "panic"
-	case err == nil:
-		o.Ret = "ok"
-	case err == io.EOF:
-		o.Ret = "eof"
-	default:
-		o.Ret = "err"
-	}
-	return o
+	x.noNest = len(c.Nested) == 0
+	x.dispatchCtx(x.top)
+	return obsOf(x.top)
 }
 
 // ---- independent restatement of the property ----
@@ -323,6 +447,63 @@ func bestMatch(ops []pat, kind int, typ string, name [2]string) (int, bool) {
 		}
 	}
 	return best, bestRank >= 0
+}
+
+// header restates, independently of stanza.NewIQ / NewMessage / NewPresence,
+// what a stanza's start element says about the stanza: its OWN type, id and
+// addresses are those of its unqualified attributes (an attribute qualified with
+// the element's own name space counts as unqualified); attributes in any other
+// name space - x:type, x:id, x:to, x:from - say nothing about the stanza. The
+// last occurrence wins; empty addresses are absent; a message type that is not one
+// of the five of RFC 6121 (unknown, mis-cased, empty) means normal.
+type header struct {
+	Type, ID string
+	To, From jid.JID
+	Bad      bool // an address does not parse
+}
+
+func headerOf(c *dcase) header {
+	h := header{}
+	isMsg := c.Name[1] == "message"
+	if isMsg {
+		h.Type = "normal"
+	}
+	for _, a := range c.Attrs {
+		if a.S == nsXML && a.L == "lang" {
+			continue
+		}
+		if a.S != "" && a.S != c.Name[0] {
+			continue
+		}
+		switch a.L {
+		case "id":
+			h.ID = a.V
+		case "type":
+			h.Type = a.V
+			if isMsg {
+				switch a.V {
+				case "normal", "chat", "error", "groupchat", "headline":
+				default:
+					h.Type = "normal"
+				}
+			}
+		case "to", "from":
+			if a.V == "" {
+				continue
+			}
+			j, err := jid.Parse(a.V)
+			if err != nil {
+				h.Bad = true
+				return h
+			}
+			if a.L == "to" {
+				h.To = j
+			} else {
+				h.From = j
+			}
+		}
+	}
+	return h
 }
 
 func isStanzaLocal(l string) bool { return l == "iq" || l == "message" || l == "presence" }
@@ -413,9 +594,20 @@ type runner struct {
 	dc  hx.CaseFile
 	lc  hx.CaseFile
 	rc  hx.CaseFile
+	nc  hx.CaseFile
+	// the composite case under judgement (see fail)
+	report *dcase
 }
 
-func (x *runner) fail(key, what string, c *dcase) { x.res.Fail(key, what, c) }
+// fail records an oracle failure. While a composite (re-entrant / interleaved)
+// case is being judged stanza by stanza, the failing input reported is the
+// whole case.
+func (x *runner) fail(key, what string, c *dcase) {
+	if x.report != nil {
+		c = x.report
+	}
+	x.res.Fail(key, what, c)
+}
 
 // prefixOK: a handler that made k calls to Token() must have obtained exactly
 // the first min(k, len(full)) tokens of full.
@@ -538,13 +730,18 @@ func (x *runner) oracle(c *dcase, o obs, via string) []string {
 	}
 	switch c.Name[1] {
 	case "iq":
-		iq, err := stanza.NewIQ(start)
-		if err != nil {
+		iq := headerOf(c)
+		if iq.Bad {
 			classes = append(classes, "iq-bad-address")
 			expectNone("iq-bad-address")
 			return classes
 		}
-		typ := string(iq.Type)
+		typ := iq.Type
+		for _, a := range c.Attrs {
+			if a.S != "" && a.S != c.Name[0] && a.S != nsXML && (a.L == "type" || a.L == "id" || a.L == "to" || a.L == "from") {
+				classes = append(classes, "iq-foreign-"+a.L+"-attr")
+			}
+		}
 		// first payload: whitespace is skipped
 		i := 0
 		for i < closeIdx && c.Toks[i].K == "t" && isWS(c.Toks[i].Text) {
@@ -634,24 +831,25 @@ func (x *runner) oracle(c *dcase, o obs, via string) []string {
 			}
 		}
 	default: // message, presence
-		kind, kname, typ := 2, "msg", ""
-		if c.Name[1] == "message" {
-			m, err := stanza.NewMessage(start)
-			if err != nil {
-				classes = append(classes, "msg-bad-address")
-				expectNone("msg-bad-address")
-				return classes
-			}
-			typ = string(m.Type)
-		} else {
+		kind, kname := 2, "msg"
+		if c.Name[1] != "message" {
 			kind, kname = 3, "pres"
-			p, err := stanza.NewPresence(start)
-			if err != nil {
-				classes = append(classes, "pres-bad-address")
-				expectNone("pres-bad-address")
-				return classes
+		}
+		sh := headerOf(c)
+		if sh.Bad {
+			classes = append(classes, kname+"-bad-address")
+			expectNone(kname + "-bad-address")
+			return classes
+		}
+		// the pattern set consulted is that of the stanza's own type
+		typ := sh.Type
+		for _, a := range c.Attrs {
+			if a.L == "type" && a.S != "" && a.S != c.Name[0] {
+				classes = append(classes, kname+"-foreign-type-attr")
 			}
-			typ = string(p.Type)
+			if kind == 2 && a.L == "type" && a.S == "" && a.V != typ {
+				classes = append(classes, "msg-unknown-type-value")
+			}
 		}
 		type exp struct {
 			h    int
@@ -701,8 +899,8 @@ func (x *runner) oracle(c *dcase, o obs, via string) []string {
 				x.fail(pre+kname+key, fmt.Sprintf("invocation %d (%s): expected handler %d, got %s %d", j, want[j].what, want[j].h, ev.Kind, ev.H), c)
 				return classes
 			}
-			if ev.Type != typ {
-				x.fail(pre+kname+"/wrong-arguments", "the handler got a stanza of a different type", c)
+			if ev.Type != typ || ev.ID != sh.ID {
+				x.fail(pre+kname+"/wrong-arguments", fmt.Sprintf("the handler got a stanza of type %q id %q, the stanza's own are %q %q", ev.Type, ev.ID, typ, sh.ID), c)
 			}
 			if !prefixOK(ev.Got, full, script(j).Reads) {
 				x.fail(pre+kname+"/replay-incomplete", fmt.Sprintf("invocation %d: the handler asked for %d tokens and did not get the stanza from its start element (%d tokens in the stanza, got %s)",
@@ -884,57 +1082,63 @@ func coqOptBytes(s string, ok bool) string {
 	return "(Some " + hx.CoqBytes([]byte(s)) + ")"
 }
 
-func coqObs(o obs) (string, bool) {
-	var evs []string
+var coqRet = map[string]string{"ok": "RetOk", "err": "RetErr", "eof": "RetEOF", "panic": "RetPanic"}
+
+// coqObsParts: the events (a nested dispatch right after the handler that
+// started it), the replies and the result of one dispatch as Coq terms.
+func coqObsParts(o obs) (evs, rps, ret string, ok bool) {
+	var es []string
 	for _, e := range o.Events {
+		t := ""
 		switch e.Kind {
 		case "top":
-			evs = append(evs, fmt.Sprintf("EvTop %d %s %s", e.H, coqName(e.Name.Space, e.Name.Local), coqToks(e.Got)))
+			t = fmt.Sprintf("EvTop %d %s %s", e.H, coqName(e.Name.Space, e.Name.Local), coqToks(e.Got))
 		case "iq":
 			p := "None"
 			if e.Payload {
 				p = "(Some " + coqName(e.Name.Space, e.Name.Local) + ")"
 			}
-			evs = append(evs, fmt.Sprintf("EvIq %d %s %s %s", e.H, coqType(e.Type), p, coqToks(e.Got)))
+			t = fmt.Sprintf("EvIq %d %s %s %s", e.H, coqType(e.Type), p, coqToks(e.Got))
 		case "msg":
-			evs = append(evs, fmt.Sprintf("EvMsg %d %s %s", e.H, coqType(e.Type), coqToks(e.Got)))
+			t = fmt.Sprintf("EvMsg %d %s %s", e.H, coqType(e.Type), coqToks(e.Got))
 		default:
-			evs = append(evs, fmt.Sprintf("EvPres %d %s %s", e.H, coqType(e.Type), coqToks(e.Got)))
+			t = fmt.Sprintf("EvPres %d %s %s", e.H, coqType(e.Type), coqToks(e.Got))
+		}
+		es = append(es, t)
+		if e.Sub != nil {
+			se, sr, st, sok := coqObsParts(obsOf(e.Sub))
+			if !sok {
+				return "", "", "", false
+			}
+			es = append(es, fmt.Sprintf("EvNested %d %s %s %s", e.Sub.idx, se, sr, st))
 		}
 	}
 	replies, bad := parseReplies(o.Written)
 	if bad != "" {
-		return "", false
+		return "", "", "", false
 	}
-	var rps []string
+	var rs []string
 	for _, r := range replies {
-		cond := r.Cond
-		rps = append(rps, fmt.Sprintf("mkreply %s %s %s %s %s %s %s %s", coqSpace(r.Space), coqType(r.Type),
+		rs = append(rs, fmt.Sprintf("mkreply %s %s %s %s %s %s %s %s", coqSpace(r.Space), coqType(r.Type),
 			coqOptBytes(r.To, r.HasTo), coqOptBytes(r.From, r.HasFrom), hx.CoqBytes([]byte(r.ID)), hx.CoqBytes([]byte(r.Lang)),
-			hx.CoqBytes([]byte(r.EType)), hx.CoqBytes([]byte(cond))))
+			hx.CoqBytes([]byte(r.EType)), hx.CoqBytes([]byte(r.Cond))))
 	}
-	ret := map[string]string{"ok": "RetOk", "err": "RetErr", "eof": "RetEOF", "panic": "RetPanic"}[o.Ret]
-	return fmt.Sprintf("(mkout [%s] [%s] %s)", strings.Join(evs, "; "), strings.Join(rps, "; "), ret), true
+	return "[" + strings.Join(es, "; ") + "]", "[" + strings.Join(rs, "; ") + "]", coqRet[o.Ret], true
 }
 
-func (x *runner) emitDispatch(c *dcase, o obs) {
-	var attrs []string
-	for _, a := range c.Attrs {
-		j := "None"
-		if a.L == "to" || a.L == "from" {
-			if p, err := jid.Parse(a.V); err == nil {
-				j = "(Some " + hx.CoqBytes([]byte(p.String())) + ")"
-			}
-		}
-		attrs = append(attrs, fmt.Sprintf("mkattr %s %s %s %s", coqSpace(a.S), hx.CoqBytes([]byte(a.L)), hx.CoqBytes([]byte(a.V)), j))
+func coqObs(o obs) (string, bool) {
+	e, r, ret, ok := coqObsParts(o)
+	if !ok {
+		return "", false
 	}
-	var toks, script []string
-	for _, t := range c.Toks {
-		toks = append(toks, coqTokS(t))
-	}
-	for _, b := range c.Script {
-		script = append(script, fmt.Sprintf("mkbeh %d %s", b.Reads, hx.CoqBool(b.Fail)))
-	}
+	return fmt.Sprintf("(mkout %s %s %s)", e, r, ret), true
+}
+
+func (x *runner) emitDispatch(c *dcase, o obs) { x.emitDispatchAs(c, o, c) }
+
+// emitDispatchAs adds the dispatch of c with observation o to the model's case
+// file; desc is the case to report (and replay) if the model disagrees.
+func (x *runner) emitDispatchAs(c *dcase, o obs, desc *dcase) {
 	obsTerm := "out_nothing"
 	if o.Refused == "" {
 		t, ok := coqObs(o)
@@ -943,9 +1147,9 @@ func (x *runner) emitDispatch(c *dcase, o obs) {
 		}
 		obsTerm = t
 	}
-	x.dc.Add(fmt.Sprintf("mkdcase %s %s %s [%s] [%s] (mkterm %s %s) [%s] %s %s", coqOps(c.Ops), coqSpace(c.NS), coqName(c.Name[0], c.Name[1]),
-		strings.Join(attrs, "; "), strings.Join(toks, "; "), hx.CoqBool(c.UErr), hx.CoqBool(c.UWith), strings.Join(script, "; "),
-		hx.CoqBool(o.Refused == ""), obsTerm), c)
+	x.dc.Add(fmt.Sprintf("mkdcase %s %s %s %s %s (mkterm %s %s) %s %s %s", coqOps(c.Ops), coqSpace(c.NS), coqName(c.Name[0], c.Name[1]),
+		coqAttrs(c.Attrs), coqTokList(c.Toks), hx.CoqBool(c.UErr), hx.CoqBool(c.UWith), coqScript(c.Script),
+		hx.CoqBool(o.Refused == ""), obsTerm), desc)
 }
 
 func (x *runner) dispatch(c *dcase) {
@@ -972,7 +1176,7 @@ func idOf(h interface{}, ok bool) (int, bool) {
 
 func (x *runner) lookup(c *dcase) {
 	c.Kind = "lookup"
-	run := &run{}
+	run := newRun(c)
 	m, refused := newMux(c.NS, c.Ops, run)
 	if refused != "" {
 		x.fail("C14/register/spurious-refusal", "mux.New panicked on a valid set of patterns: "+refused, c)
@@ -1035,7 +1239,7 @@ func (x *runner) lookup(c *dcase) {
 
 func (x *runner) register(c *dcase) {
 	c.Kind = "register"
-	_, refused := newMux(c.NS, c.Ops, &run{})
+	_, refused := newMux(c.NS, c.Ops, newRun(c))
 	want := refusalExpected(c.Ops)
 	if want != "" && refused == "" {
 		x.fail("C14/register/"+want+"-accepted", "mux.New accepted a registration that must be refused ("+want+")", c)
@@ -1059,6 +1263,7 @@ func main() {
 	x.dc = hx.CaseFile{Name: "disp", Imports: imports, Ok: "dcase_ok", Type: "dcase"}
 	x.lc = hx.CaseFile{Name: "look", Imports: imports, Ok: "lcase_ok", Type: "lcase"}
 	x.rc = hx.CaseFile{Name: "reg", Imports: imports, Ok: "rcase_ok", Type: "rcase"}
+	x.nc = hx.CaseFile{Name: "nest", Imports: imports, Ok: "ncase_ok", Type: "ncase"}
 	r := hx.NewRand(o.Seed)
 
 	if o.Replay != "" {
@@ -1082,6 +1287,10 @@ func main() {
 			x.register(&c)
 		case "session":
 			x.session(&c)
+		case "reentrant":
+			x.reentrant(&c)
+		case "interleave":
+			x.interleave(&c)
 		default:
 			x.dispatch(&c)
 			x.session(&c)
@@ -1114,6 +1323,7 @@ func main() {
 		x.exhaustiveChildren(r, map[bool]int{false: 3, true: 4}[o.Thorough() || o.Search])
 		x.nearEmpty(r)
 		x.ownNames(r, o.Thorough() || o.Search)
+		x.sharedMux(r, o.Thorough() || o.Search)
 		x.registrations(r)
 		for i := 0; i < nd; i++ {
 			c := genDispatch(r)
@@ -1139,7 +1349,8 @@ func main() {
 	res.CaseFiles = append(res.CaseFiles, x.dc.Write(o.Out, per)...)
 	res.CaseFiles = append(res.CaseFiles, x.lc.Write(o.Out, per)...)
 	res.CaseFiles = append(res.CaseFiles, x.rc.Write(o.Out, per)...)
-	res.Extra["model_cases"] = x.dc.Len() + x.lc.Len() + x.rc.Len()
+	res.CaseFiles = append(res.CaseFiles, x.nc.Write(o.Out, per)...)
+	res.Extra["model_cases"] = x.dc.Len() + x.lc.Len() + x.rc.Len() + x.nc.Len()
 	res.Write(o.Out)
 }
 
